@@ -112,6 +112,10 @@ def impl_tx(ssnet, ops):
                 nsent += 1
             except Exception:
                 pass
+        elif op[0] == "G":
+            # a PING from the peer is handled between two flushes: the PONG is queued by the real got_packet
+            m.got_packet(0, 0x4201, op[1])
+            nsent += 1
         else:
             w.script = [op[1]]
             m.flush()
@@ -340,7 +344,12 @@ def correspondence(ctx):
     for _ in range(60 if quick else 1500):
         ops, txt = [], []
         for _ in range(rng.randint(1, 14)):
-            if rng.random() < 0.45:
+            if rng.random() < 0.12:
+                d = rand_payload(rng.choice([0, 6, 7]))
+                ops.append(("G", d))
+                txt.append("S:0:%d:%s" % (0x4202, hx(d)))       # model: the PONG is one more message sent
+                ctx.count("tx_ping_handled")
+            elif rng.random() < 0.45:
                 ln = rng.choice([0, 1, 8, 9, rng.randint(0, 80), 2048])
                 if rng.random() < 0.05:
                     ln = 65536
@@ -356,6 +365,18 @@ def correspondence(ctx):
                 ctx.count("tx_flush_" + ("eagain" if k is None else "zero" if k == 0 else "partial"))
         lines.append("TX " + " ".join(txt))
         impl.append(impl_tx(ssnet, ops))
+        sent_frames = [t.split(":") for t in txt if t.startswith("S:")]
+        sent_ok = [(int(c), int(k), bytes.fromhex(h) if h != "-" else b"") for _, c, k, h in sent_frames
+                   if int(c) <= 65535 and len(h) // 2 <= 65535]
+        drained = impl_tx(ssnet, ops + [("F", 10 ** 9)] * (len(ops) + 2))
+        wire = drained.split(" | ")[1]
+        wire = bytes.fromhex(wire) if wire != "-" else b""
+        got = impl_rx(ssnet, [wire[i:i + 32768] for i in range(0, len(wire), 32768)] or [])
+        want = "OK %s | - 0" % ";".join("%d,%d,%s" % (c, k, hx(d)) for c, k, d in sent_ok)
+        if got != want:
+            ctx.violation("messages decoded from the pipe are not the messages sent, in order (partial writes interleaved with sends)",
+                          {"ops": " ".join(("G:" + hx(o[1])) if o[0] == "G" else ("S:%d:%d:%s" % (o[1], o[2], hx(o[3])) if o[0] == "S" else "F:%s" % o[1]) for o in ops)[:1500],
+                           "decoded": got[:400], "expected": want[:400]})
     out = ctx.run_driver(lines)
     for ln, i, o in zip(lines, impl, out):
         ctx.case(("tx", ln), sample={"kind": "tx", "ops": ln[:150], "result": i[:100]})
